@@ -84,6 +84,7 @@ class World(object):
         self.given = []          # model: datasets given to the viewer and still shown
         self.removed_groups = []
         self.extra = False       # extra component 'w' on d0
+        self.derived = False     # derived component 'sum' on d0
 
     def name_of(self, data):
         for n, d in self.pool.items():
@@ -161,6 +162,8 @@ class Scenario(object):
             ops.append(['set_state', j])
         if self.comps and w.in_dc('d0'):
             ops.append(['rm_comp', 'w'] if w.extra else ['add_comp', 'w'])
+            ops.append(['reorder'])
+            ops.append(['add_derived'] if not w.derived else ['rm_derived'])
         if self.pickers and self.kind != 'base':
             st = w.viewer.state
             for name, h in cid_helpers(st):
@@ -207,6 +210,17 @@ class Scenario(object):
             elif k == 'rm_comp':
                 w.pool['d0'].remove_component(w.pool['d0'].id['w'])
                 w.extra = False
+            elif k == 'reorder':
+                d = w.pool['d0']
+                d.reorder_components(d.components[::-1])
+            elif k == 'add_derived':
+                d = w.pool['d0']
+                d.add_component_link(w.cids['x'] + w.cids['y'], 'sum')
+                w.derived = True
+            elif k == 'rm_derived':
+                d = w.pool['d0']
+                d.remove_component(d.id['sum'])
+                w.derived = False
             elif k == 'pick':
                 h = getattr(v.state, op[1])
                 ch = [c for c in h.choices if c is not None and not _is_sep(c)]
@@ -350,7 +364,8 @@ class Scenario(object):
                        ['s', w.name_of(l.data), [i for i, g in enumerate(w.dc.subset_groups) if g is getattr(l, 'group', None)]])
         c = dict(dc=[w.name_of(d) for d in w.dc], given=w.given, layers=lay,
                  nstate=len(st.layers), groups=[repr(type(g.subset_state).__name__) + str(_thr(g)) for g in w.dc.subset_groups],
-                 subsets={n: len(d.subsets) for n, d in w.pool.items()}, extra=w.extra, nrem=len(w.removed_groups))
+                 subsets={n: len(d.subsets) for n, d in w.pool.items()}, extra=w.extra, nrem=len(w.removed_groups),
+                 comps={n: [x.label for x in d.components] for n, d in w.pool.items()})
         if self.kind != 'base':
             pick = {}
             for name, h in cid_helpers(st):
